@@ -352,6 +352,18 @@ namespace pika::detail {
             // PIKA_ASSERT(num_threads_socket[n] <= num_pus_socket[n]);
         }
 
+        // rounding to the nearest integer can leave threads without a socket (e.g. one thread on three
+        // equally sized sockets): hand the remaining threads to sockets which still have unused PUs
+        for (std::size_t n = 0; n < num_sockets && pus_t2 < num_threads; ++n)
+        {
+            if (num_threads_socket[n] >= num_pus_socket[n]) continue;
+
+            std::size_t const extra =
+                (std::min)(num_threads - pus_t2, num_pus_socket[n] - num_threads_socket[n]);
+            num_threads_socket[n] += extra;
+            pus_t2 += extra;
+        }
+
         // PIKA_ASSERT(num_threads <= pus_t2);
 
         // assign threads to cores on each socket
